@@ -90,6 +90,12 @@ def blk (ws : List String) : String :=
     -- `extending_splice` called directly: dst = 1,2,3,…; payload = 0xAA…; `stop` is the exclusive end
     let dst : Bytes := (List.range (nat! dstlen)).map (fun i => UInt8.ofNat (i + 1))
     let pay : Bytes := List.replicate (nat! paylen) 0xAA
+    -- the low-level version (Vec::splice's own panics made explicit) must agree whenever start ≤ stop
+    let lowOk := if nat! start ≤ nat! stop then
+        decide (extendingSpliceLow dst (nat! start) (nat! stop) pay (nat! maxres) =
+          .ok (extendingSplice dst (nat! start) (nat! stop) pay (nat! maxres)))
+      else true
+    if !lowOk then "LOW-LEVEL-MODEL-DISAGREES" else
     match extendingSplice dst (nat! start) (nat! stop) pay (nat! maxres) with
     | some d => s!"ok {d.length} {hexOfBytes (d.take 40)} {hexOfBytes (d.drop (d.length - 8))}"
     | none => "err"
